@@ -16,8 +16,9 @@ RULE = ("cells = version x command -1..5 x sub-type -1..max+2 x node {-1,0,1,254
         "header passes, i.e. the payload rule decided the outcome")
 ASSUMPTIONS = [
     "voluptuous combinator semantics as modelled in Model/Rules.v (All threads the value, Any first success, In equality, Range `not v >= min`)",
-    "float() and awesomeversion (inside is_version) are oracles: the harness supplies the real verdict per payload, the theorem quantifies over all oracles",
+    "float() is an oracle, and so is awesomeversion (inside is_version) on payloads that are NOT dotted numeric: the harness supplies the real verdict per payload, the theorem quantifies over all oracles; on dotted numeric payloads [0-9]+(\\.[0-9]+)* the model computes the verdict itself (exact awesomeversion comparison, Base/Version.v) and ignores the supplied table entry",
     "CPython int() as modelled in Base/PyInt.v",
+    "the int() of a version section is unbounded in the model (CPython refuses more than 4300 digits: awesomeversion then raises ValueError, which is_version turns into Invalid)",
 ]
 THEOREMS_DOC = {
     "C03_validate_conforms": "forall version, header in Z^5, payload, oracles: validate over GENERATED tables = hand-written serial API spec",
@@ -26,6 +27,9 @@ THEOREMS_DOC = {
     "C03_child_schema_total": "every presentation type has a child schema (no KeyError)",
     "C03_tables_well_kinded": "no generated validator applies a combinator to a value kind it cannot take",
     "C03_validator_functions_unchanged": "AST fingerprints of the hand-modelled validator functions equal those the model was written against",
+    "C03_node_presentation_version_numeric": "forall version table, otherwise valid node-presentation header (node/child 0..255, ack 0/1, sub-type 17/18), DOTTED NUMERIC payload p and ALL oracle tables: the message validates <-> p is numerically >= 1.4 (num_ge: section values left to right, missing section = 0, leading zeros irrelevant; stated without awesomeversion)",
+    "C03_version_test_is_numeric": "the modelled awesomeversion test of is_version, not AwesomeVersion('1.4') > AwesomeVersion(p), equals num_ge (sections p) [1;4] for every string p",
+    "C03_validate_conforms_numeric": "forall oracle tables, version, message: validate over GENERATED tables with the machine's verdicts = hand-written spec whose version class is the numeric rule on dotted numeric payloads and the oracle only elsewhere",
 }
 VERS = oracles.VERSIONS
 MAXSUB = {  # spec maxima, only to size the grid
@@ -76,6 +80,23 @@ def corpus_cells(ctx):
                     CORPUS if t in (1, 3) or s in (17, 18) else rng.sample(CORPUS, 6))
                 for p in pl:
                     cases.append({"kind": "validate", "v": vi, "hdr": [1, child, t, 0, s], "payload": p})
+    return cases
+
+
+def numeric_version_cells(ctx):
+    """Node presentations (sub-type 17/18) with generated DOTTED NUMERIC payloads: 1-4 sections, values around the
+    1.4 boundary, leading zeros, long sections.  On these the model does not consult the oracle table: it computes
+    awesomeversion's verdict itself (Base/Version.v), so every case is a test of the exact model against the library."""
+    rng = ctx.rng("c03numver")
+    cases = []
+
+    def sec():
+        v = rng.choice([0, 0, 1, 1, 2, 3, 4, 4, 5, 9, 10, 13, 14, 39, 40, 41, 100, rng.randrange(0, 10 ** rng.randrange(1, 30))])
+        return "0" * rng.choice([0, 0, 0, 1, 2]) + str(v)
+    for _ in range(ctx.budget(600, 6000)):
+        p = ".".join(sec() for _ in range(rng.choice([1, 2, 2, 2, 3, 3, 4, 6])))
+        cases.append({"kind": "validate", "v": rng.randrange(5), "hdr": [rng.choice([0, 1, 254, 255]), 255, 0, rng.choice([0, 1]),
+                                                                         rng.choice([17, 18])], "payload": p})
     return cases
 
 
@@ -229,7 +250,7 @@ def version_rule(c, o):
 
 def run(ctx, res):
     tables_do_not_depend_on_loaded_versions(res)
-    cases = corpus_cells(ctx) + grid(ctx) + child_cases(ctx)
+    cases = corpus_cells(ctx) + grid(ctx) + numeric_version_cells(ctx) + child_cases(ctx)
     jobs = min(16, os.cpu_count() or 4)
     with ProcessPoolExecutor(jobs) as ex:
         obs = [o for part in ex.map(impl_chunk, chunks(cases, jobs * 4)) for o in part]
